@@ -132,6 +132,32 @@ class Run(object):
                 self.analysis_errors.append('%s: internal error %r at %s' % (
                     r.__name__, e, ' | '.join(x.strip() for x in tb[-4:-1])))
 
+    def share(self, ctx, rule_fn, src_rule, dst_rule, doc=None):
+        """Run a rule function of another property and adopt its obligations
+        and findings under this property's rule id dst_rule."""
+        sub = type(self)(self.prop_id, self.tier, self.project)
+        try:
+            rule_fn(sub, ctx)
+        except AnalysisError as e:
+            self.analysis_errors.append('%s (shared %s): %s' % (dst_rule, src_rule, e))
+        if doc:
+            self.rule_docs[dst_rule] = doc
+        for o in sub.obligations:
+            o = dict(o)
+            if o.get('rule') != src_rule:
+                continue
+            o['rule'] = dst_rule
+            if 'key' in o:
+                o['key'] = o['key'].replace(src_rule + '|', dst_rule + '|', 1)
+            self.obligations.append(o)
+        for fd in sub.findings:
+            if fd.rule != src_rule:
+                continue
+            fd.rule = dst_rule
+            fd.key = fd.key.replace(src_rule + '|', dst_rule + '|', 1)
+            self.findings.append(fd)
+        self.analysis_errors.extend(sub.analysis_errors)
+
     def note(self, text):
         self.notes.append(text)
 
